@@ -375,6 +375,7 @@ _c = _reg(MethodContract("ecdsa.keys.VerifyingKey.precompute", _pre_cases(), _pr
 def install_mul_effects():
     """give PointJacobi.__mul__ a field-mode application (effects only) unless it has one"""
     c = REGISTRY.get(PJ + "__mul__")
+    c = getattr(c, "as_method", c)
     if c is not None and getattr(c, "apply_fn", None) is None:
         c.apply_fn = _mul_effects_apply
 
